@@ -7,17 +7,17 @@
 
 SdpTokens == <<
    (* CRLF='\r\n'  CR='\r'  LF='\n'  A='a'  EQ='='  V0='v=0'  SP=' '  M='m' *)
-   [n |-> "CRLF", b |-> <<13, 10>>, hot |-> FALSE],
-   [n |-> "CR", b |-> <<13>>, hot |-> FALSE],
-   [n |-> "LF", b |-> <<10>>, hot |-> FALSE],
-   [n |-> "A", b |-> <<97>>, hot |-> FALSE],
-   [n |-> "EQ", b |-> <<61>>, hot |-> FALSE],
-   [n |-> "V0", b |-> <<118, 61, 48>>, hot |-> FALSE],
-   [n |-> "SP", b |-> <<32>>, hot |-> FALSE],
-   [n |-> "M", b |-> <<109>>, hot |-> FALSE] >>
+   [n |-> "CRLF", b |-> <<13, 10>>, c |-> "crlf", hot |-> FALSE],
+   [n |-> "CR", b |-> <<13>>, c |-> "cr", hot |-> FALSE],
+   [n |-> "LF", b |-> <<10>>, c |-> "lf", hot |-> FALSE],
+   [n |-> "A", b |-> <<97>>, c |-> "text", hot |-> FALSE],
+   [n |-> "EQ", b |-> <<61>>, c |-> "eq", hot |-> FALSE],
+   [n |-> "V0", b |-> <<118, 61, 48>>, c |-> "text", hot |-> FALSE],
+   [n |-> "SP", b |-> <<32>>, c |-> "ws", hot |-> FALSE],
+   [n |-> "M", b |-> <<109>>, c |-> "text", hot |-> FALSE] >>
 
 SdpPres == <<
-   [n |-> "none", b |-> <<>>],
-   [n |-> "V0LINE", b |-> <<118, 61, 48, 13, 10>>],
-   [n |-> "VALID", b |-> <<118, 61, 48, 13, 10, 111, 61, 120, 13, 10, 115, 61, 120, 13, 10, 116, 61, 48, 32, 48, 13, 10, 99, 61, 120, 13, 10, 109, 61, 120>>] >>
+   [n |-> "none", b |-> <<>>, c |-> "empty"],
+   [n |-> "V0LINE", b |-> <<118, 61, 48, 13, 10>>, c |-> "crlf"],
+   [n |-> "VALID", b |-> <<118, 61, 48, 13, 10, 111, 61, 120, 13, 10, 115, 61, 120, 13, 10, 116, 61, 48, 32, 48, 13, 10, 99, 61, 120, 13, 10, 109, 61, 120>>, c |-> "text"] >>
 =============================================================================
